@@ -258,6 +258,7 @@ func c12Run(p histParams, hist []string) (*World, trustedObs, string) {
 	w.SetupTxUniverse()
 	w.cfg.Subscribe = [][]byte{subKey[:]}
 	w.SetupUntrusted(1)
+	w.manualUntrusted = true
 	w.StartNode()
 	w.settle()
 	if !w.bootSync(60) {
